@@ -180,7 +180,9 @@ func (d *dataTracer) tracePrefixLocked(data []byte) (int, bool) {
 		d.env = nil
 	} else if !d.isRequest && (d.env.Flags&0x82) != 0 {
 		// This is a response end-stream message. Capture the contents.
-		d.endStream = bytes.NewBuffer(make([]byte, 0, d.env.Len))
+		// (The buffer grows as data arrives: the declared length comes from
+		// the wire and must not be trusted for a large up-front allocation.)
+		d.endStream = &bytes.Buffer{}
 	}
 	return need, true
 }
